@@ -37,12 +37,15 @@ Proof. exact py_slice_ssize_eq. Qed.
 Print Assumptions C16_unpack_adjust_is_indices.
 
 (* what is stored in dst (new shape, stride*step, data offset start*stride) addresses, as
-   i-th element, base element first + i*step -- any code variant *)
+   i-th element, base element first + i*step -- any code variant; when the normalised start is -1
+   (negative step, start before the first item: the view is empty by C16_offsets_in_bounds) the data
+   pointer / suboffset is not moved at all *)
 Theorem C16_element_set_eq : forall fx shape stride start stop step hs he hst n s' o,
   slice_dim fx shape stride start stop step hs he hst = DSlice n s' o ->
   exists first istep,
     slice_triple fx shape start stop step hs he hst = Some (n, first, istep) /\
-    forall i, o + i * s' = (first + i * istep) * stride.
+    (0 <= first -> forall i, o + i * s' = (first + i * istep) * stride) /\
+    (first < 0 -> o = 0).
 Proof. exact element_eq. Qed.
 Print Assumptions C16_element_set_eq.
 
